@@ -436,7 +436,7 @@ func c10Exec(r *gosim.Run) {
 				err := watch("Remove", func() error { return cur.Remove(ctx, path) })
 				r.Logf("rm %q -> %v", path, err)
 				if err != nil {
-					r.Violate("remove-error", "Remove(%q) of a mapped path failed: %v; mapping before: %s", path, err, modelStr(model))
+					r.Violate("remove-error", "Remove(%q) of a mapped path failed: %v; mapping before: %s; %s", path, err, modelStr(model), hist)
 				}
 				delete(model, path)
 				r.Count("probe_remove")
